@@ -556,7 +556,11 @@ class Exec:
             else:
                 raise OutOfSubset('missing argument %s' % p)
         if a.vararg is not None:
-            env[a.vararg.arg] = T(args[len(params):])
+            # '*' / '**' in kwargs: a symbolic argument tuple / keyword mapping handed over as a whole (theories' call hooks)
+            env[a.vararg.arg] = kwargs['*'] if ('*' in kwargs and len(args) <= len(params)) else T(args[len(params):])
+        if a.kwarg is not None:
+            env[a.kwarg.arg] = kwargs['**'] if '**' in kwargs else SV('kwargs', None, items={
+                k: v for k, v in kwargs.items() if k not in params and k not in {p.arg for p in a.kwonlyargs} and k != '*'})
         for p, d in zip(a.kwonlyargs, a.kw_defaults):
             if p.arg in kwargs:
                 env[p.arg] = kwargs[p.arg]
@@ -564,7 +568,7 @@ class Exec:
                 env[p.arg] = ('default', d)
             else:
                 raise OutOfSubset('missing keyword-only argument %s' % p.arg)
-        extra = set(kwargs) - set(params) - {p.arg for p in a.kwonlyargs}
+        extra = set(kwargs) - set(params) - {p.arg for p in a.kwonlyargs} - {'*', '**'}
         if extra and a.kwarg is None:
             raise OutOfSubset('unexpected keyword %s' % extra)
         return env
@@ -959,14 +963,31 @@ class Exec:
 
     def s_For(self, st, s):
         spec = self.loops.get(id(s))
-        if spec is None:
-            raise OutOfSubset('for loop at line %d has no sidecar invariant' % s.lineno)
         if s.orelse:
             raise OutOfSubset('for/else')
         it = self.eval(st, s.iter)
         seq = self.iterate(st, it)     # -> (length z3 Int, at(st, k) -> SV)
         n, at = seq
         pend = self._flush(st)
+        if spec is None:
+            # a sequence of statically known, small length (literal list / tuple, range(3)) is unrolled: complete, no invariant needed
+            nn = simplify(n) if z3.is_expr(n) else IntVal(n)
+            if not z3.is_int_value(nn) or nn.as_long() > 16:
+                raise OutOfSubset('for loop at line %d has no sidecar invariant' % s.lineno)
+            res, live = list(pend), [st]
+            for k in range(nn.as_long()):
+                nxt = []
+                for cur in live:
+                    self.assign(cur, s.target, at(cur, IntVal(k)), s)
+                    for o in self.run_block(cur, s.body):
+                        if o.kind in ('next', 'continue'):
+                            nxt.append(o.st)
+                        elif o.kind == 'break':
+                            res.append(Outcome('next', o.st))
+                        else:
+                            res.append(o)
+                live = nxt
+            return res + [Outcome('next', c) for c in live]
         kname = spec.name + '.k'
         st.ghost[kname] = IntVal(0)
         st.ghost[spec.name + '.n'] = n
